@@ -97,7 +97,95 @@ class Temps(ast.NodeTransformer):
         return fn
 
 
-TRANSFORMS = {'rename': Rename, 'swapif': SwapIf, 'temps': Temps}
+class Inline(ast.NodeTransformer):
+    """`t = <expr>` directly followed by a statement that is the only reader
+    of `t` (and reads it once): substitute the expression."""
+
+    def visit_FunctionDef(self, fn):
+        self.generic_visit(fn)
+        counts = {}
+        for n in ast.walk(fn):
+            if isinstance(n, ast.Name):
+                k = (n.id, type(n.ctx).__name__)
+                counts[k] = counts.get(k, 0) + 1
+
+        def pure(e):
+            return not any(isinstance(x, (ast.Call, ast.Yield, ast.Await))
+                           for x in ast.walk(e))
+
+        def fix(stmts):
+            out = []
+            i = 0
+            while i < len(stmts):
+                s = stmts[i]
+                for attr in ('body', 'orelse', 'finalbody'):
+                    sub = getattr(s, attr, None)
+                    if isinstance(sub, list) and sub and isinstance(
+                            sub[0], ast.stmt):
+                        setattr(s, attr, fix(sub))
+                for h in getattr(s, 'handlers', []) or []:
+                    h.body = fix(h.body)
+                if isinstance(s, ast.Assign) and len(s.targets) == 1 \
+                        and isinstance(s.targets[0], ast.Name) \
+                        and i + 1 < len(stmts) and pure(s.value):
+                    name = s.targets[0].id
+                    nxt = stmts[i + 1]
+                    uses = [x for x in ast.walk(nxt) if isinstance(
+                        x, ast.Name) and x.id == name and isinstance(
+                        x.ctx, ast.Load)]
+                    simple = isinstance(nxt, (ast.Assign, ast.Return,
+                                              ast.Expr, ast.AugAssign))
+                    if simple and len(uses) == 1 and counts.get(
+                            (name, 'Load'), 0) == 1 and counts.get(
+                            (name, 'Store'), 0) == 1:
+                        val = s.value
+
+                        class R(ast.NodeTransformer):
+                            def visit_Name(self, x):
+                                if x.id == name and isinstance(
+                                        x.ctx, ast.Load):
+                                    return val
+                                return x
+                        out.append(R().visit(nxt))
+                        i += 2
+                        continue
+                out.append(s)
+                i += 1
+            return out
+        fn.body = fix(fn.body)
+        return fn
+
+
+class Kwargs(ast.NodeTransformer):
+    """positional arguments of calls to methods of the same class become
+    keyword arguments (the callee is resolved by name in the class)."""
+
+    def visit_ClassDef(self, c):
+        sigs = {}
+        for m in c.body:
+            if isinstance(m, ast.FunctionDef) and not m.args.vararg \
+                    and not m.args.posonlyargs:
+                sigs[m.name] = [a.arg for a in m.args.args][1:]
+
+        class R(ast.NodeTransformer):
+            def visit_Call(self, n):
+                self.generic_visit(n)
+                f = n.func
+                if isinstance(f, ast.Attribute) and isinstance(
+                        f.value, ast.Name) and f.value.id == 'self' \
+                        and f.attr in sigs and n.args and not any(
+                            isinstance(a, ast.Starred) for a in n.args) \
+                        and len(n.args) <= len(sigs[f.attr]):
+                    names = sigs[f.attr]
+                    n.keywords = [ast.keyword(arg=names[i], value=a)
+                                  for i, a in enumerate(n.args)] + n.keywords
+                    n.args = []
+                return n
+        return R().visit(c)
+
+
+TRANSFORMS = {'rename': Rename, 'swapif': SwapIf, 'temps': Temps,
+              'inline': Inline, 'kwargs': Kwargs}
 
 
 def rewritten(kind):
